@@ -406,14 +406,16 @@ def encOcc (o : Occ) : PB := .msg [("time_step", encIntEOI o.t), ("shape", encSh
 def encSetPred (p : SetPred) : PB :=
   .msg [("initial_time_step", .u32 p.t0), ("occupancy_set", .msg [("occupancies", .rep (p.occ.map encOcc))])]
 
-/-- the `prediction` oneof of a dynamic obstacle (writer :698-703, 717-728, 757-768) -/
-def encPred : Option Pred → List (String × PB)
-  | none => []
+/-- the `prediction` oneof of a dynamic obstacle (writer :698-703, 717-728, 757-768): at most one member is set -/
+def encTrajPred : Option Pred → PB
   | some (.traj t0 states shape) =>
-      [("trajectory_prediction",
-        .msg [("trajectory", .msg [("initial_time_step", .u32 t0), ("states", .rep (states.map encState))]),
-              ("shape", encShape shape)])]
-  | some (.set p) => [("set_based_prediction", encSetPred p)]
+      .msg [("trajectory", .msg [("initial_time_step", .u32 t0), ("states", .rep (states.map encState))]),
+            ("shape", encShape shape)]
+  | _ => .null
+
+def encSetPredOf : Option Pred → PB
+  | some (.set p) => encSetPred p
+  | _ => .null
 
 /-- StaticObstacleMessage (writer :608-632, after the two `fix:` commits on signal states) -/
 def encStatic (o : StaticObs) : PB :=
@@ -425,8 +427,8 @@ def encStatic (o : StaticObs) : PB :=
 def encDynamic (o : DynObs) : PB :=
   .msg ([("dynamic_obstacle_id", .u32 o.id), ("obstacle_type", .enum "ObstacleType" o.type),
          ("shape", encShape o.shape), ("initial_state", encState o.init),
-         ("initial_signal_state", ofOpt (o.sig0.map encSig)), ("signal_series", .rep (o.series.map encSig))]
-        ++ encPred o.pred)
+         ("initial_signal_state", ofOpt (o.sig0.map encSig)), ("signal_series", .rep (o.series.map encSig)),
+         ("trajectory_prediction", encTrajPred o.pred), ("set_based_prediction", encSetPredOf o.pred)])
 
 /-- EnvironmentObstacleMessage (writer :784-797) -/
 def encEnvObs (o : EnvObs) : PB :=
@@ -696,6 +698,11 @@ def decInitState (m : PB) : St :=
     pos := some ((decPos m).getD (.point ⟨Dbl.zero, Dbl.zero⟩)),
     attrs := initFields.map fun n => (n, if m.has n then decFloatEOI (m.get n) else .exact Dbl.zero) }
 
+/-- at least one slot of the signal state is set (`kwargs` non-empty, reader :811) -/
+def Sig.any (s : Sig) : Bool :=
+  s.t.isSome || s.horn.isSome || s.indicator_left.isSome || s.indicator_right.isSome || s.braking_lights.isSome
+    || s.hazard_warning_lights.isSome || s.flashing_blue_lights.isSome
+
 /-- SignalStateFactory (reader :798-811); `none` when no slot is set. -/
 def decSig (m : PB) : Option Sig :=
   let s : Sig := { t := if m.has "time_step" then some (decIntEOI (m.get "time_step")) else none,
@@ -703,8 +710,7 @@ def decSig (m : PB) : Option Sig :=
                    indicator_right := (m.get "indicator_right").optBool, braking_lights := (m.get "braking_lights").optBool,
                    hazard_warning_lights := (m.get "hazard_warning_lights").optBool,
                    flashing_blue_lights := (m.get "flashing_blue_lights").optBool }
-  if s.t.isSome || s.horn.isSome || s.indicator_left.isSome || s.indicator_right.isSome || s.braking_lights.isSome
-      || s.hazard_warning_lights.isSome || s.flashing_blue_lights.isSome then some s else none
+  if s.any then some s else none
 
 /-- a signal series entry: the reader appends whatever SignalStateFactory returns; an empty message (which yields Python
     `None`) is represented by the all-unset signal state. -/
@@ -881,7 +887,7 @@ def normPred : Pred → Pred
   | .set p => .set p
 
 /-- a signal state object without any slot reads back as "no signal state" (reader :811) -/
-def normSig0 (o : Option Sig) : Option Sig := o.bind fun s => if s = emptySig then none else some s
+def normSig0 (o : Option Sig) : Option Sig := o.bind fun s => if s.any then some s else none
 
 def normStatic (o : StaticObs) : StaticObs := { o with init := normInit o.init, sig0 := normSig0 o.sig0 }
 def normDynamic (o : DynObs) : DynObs :=
@@ -889,7 +895,54 @@ def normDynamic (o : DynObs) : DynObs :=
 def normGoal (g : Goal) : Goal := { g with state := normState g.state }
 def normPP (p : PP) : PP := { p with init := normInit p.init, goals := p.goals.map normGoal }
 
+/-- constructor defaults the reader leaves in place when the writer did not set the field (the public accessors never
+    return `None` for these, so on snapshots of real objects these four functions are the identity: `…_of_typed`) -/
+def normLanelet (l : Lanelet) : Lanelet :=
+  { l with lm_left := some (l.lm_left.getD "NO_MARKING"), lm_right := some (l.lm_right.getD "NO_MARKING") }
+
+/-- a traffic sign element id of a class the format has no oneof member for is written into (and read back from) the
+    Puerto Rico member -/
+def normSignEl (e : SignEl) : SignEl := { e with country := signEnumOfField (signField e.country) }
+
+def normSign (s : Sign) : Sign :=
+  { s with elements := s.elements.map normSignEl, pos := some (s.pos.getD ⟨Dbl.zero, Dbl.zero⟩),
+           virtual := some (s.virtual.getD false) }
+
+def normLight (t : Light) : Light :=
+  { t with pos := some (t.pos.getD ⟨Dbl.zero, Dbl.zero⟩), offset := some (t.offset.getD 0),
+           direction := some (t.direction.getD "ALL"), active := some (t.active.getD (!t.cycle.isEmpty)) }
+
 def normPb (x : Scn) : Scn :=
-  { x with static := x.static.map normStatic, dynamic := x.dynamic.map normDynamic, pps := x.pps.map normPP }
+  { x with lanelets := x.lanelets.map normLanelet, signs := x.signs.map normSign, lights := x.lights.map normLight,
+           static := x.static.map normStatic, dynamic := x.dynamic.map normDynamic, pps := x.pps.map normPP }
+
+/-! ## Admissible snapshots -/
+
+/-- the keys of `kvs` occur in `all`, in the same order (each at most once when `all` has no duplicates) -/
+def subOrdered {β : Type} : List (String × β) → List String → Bool
+  | [], _ => true
+  | _ :: _, [] => false
+  | kv :: r, a :: as => if kv.1 == a then subOrdered r as else subOrdered (kv :: r) as
+
+/-- the populated float attributes of a state are fields of message `State`, listed in descriptor order
+    (what `c02_snapshot.state` produces for every state whose attributes the format has a field for) -/
+def St.wf (s : St) : Bool := subOrdered s.attrs stateFields
+
+def Pred.wf : Pred → Bool
+  | .traj _ states _ => states.all St.wf
+  | .set _ => true
+
+/-- admissible snapshot: every state's attributes are fields of message `State` in descriptor order, every entry of a
+    signal series has at least one slot (an object without slots cannot be told from "no signal state" in the format) -/
+def Scn.wf (x : Scn) : Bool :=
+  x.static.all (fun o => o.init.wf && o.series.all Sig.any) &&
+  x.dynamic.all (fun o => o.init.wf && o.series.all Sig.any && (match o.pred with | some p => p.wf | none => true)) &&
+  x.pps.all (fun p => p.init.wf && p.goals.all (fun g => g.state.wf))
+
+/-- the snapshot of real objects: the accessors of lanelets, signs and lights never return `None` for these -/
+def Scn.typed (x : Scn) : Bool :=
+  x.lanelets.all (fun l => l.lm_left.isSome && l.lm_right.isSome) &&
+  x.signs.all (fun s => s.pos.isSome && s.virtual.isSome && s.elements.all (fun e => signCountries.contains e.country)) &&
+  x.lights.all (fun t => t.pos.isSome && t.offset.isSome && t.direction.isSome && t.active.isSome)
 
 end CR.PBF
